@@ -140,6 +140,10 @@ def r2_element_wise(ctx):
                 probs.append("no vectorised call of check_fn")
             keep = lambda t, n: "element_wise" in t
             for c in mapped:
+                extra = [k.arg for k in c.keywords if k.arg not in ("axis", "return_dtype")] + [txt(a) for a in c.args[1:]]
+                if extra:
+                    probs.append(f"element-wise application passes extra arguments {extra}: not a plain map of the function over all "
+                                 "elements (e.g. na_action='ignore' hides nulls from the function although ignore_na=False)")
                 pc = path_condition(cfg, cfg.node_of(enclosing_stmt(c)).id, keep=keep)
                 if pc != (("self.check.element_wise",), frozenset({(True,)})):
                     probs.append(f"element-wise application reached under {show_condition(pc)}")
@@ -256,12 +260,12 @@ def r5_raise_warning(ctx):
             continue
         for c in warns:
             st = enclosing_stmt(c)
-            keep = lambda t, n: "raise_warning" in t or t == "passed"
-            pc = path_condition(cfg, cfg.node_of(st).id, keep=keep)
+            pc = path_condition(cfg, cfg.node_of(st).id)
             want_names = tuple(sorted(["check.raise_warning", "passed"]))
             ok = pc[0] == want_names and pc[1] == frozenset({tuple(True if n == "check.raise_warning" else False for n in want_names)})
             ctx.ob("R5", f, "warnings.warn reached exactly when (not passed) and check.raise_warning", ok,
-                   f"reached under {show_condition(pc)}", f.loc(c))
+                   f"reached under {show_condition(pc)}" + ("" if ok else ": the downgrade to a warning depends on more than "
+                                                             "`not passed and check.raise_warning`, so some failing checks still raise"), f.loc(c))
             # the rest of the block: return CoreCheckResult(passed=True), no raise
             from ..index import parent
             blk = parent(st)
